@@ -11,4 +11,5 @@ INVARIANT HexText
 INVARIANT Argument
 INVARIANT Anchors
 INVARIANT Polar
+INVARIANT MB05
 CHECK_DEADLOCK FALSE
